@@ -274,6 +274,22 @@ static int extra_modes(const WorkerOpts &o, Stats &stats) {
             return;
           }
         }
+        // two adjacent soft faults inside one retry loop: short write then EINTR on the retry, and EINTR then short write
+        for (long k : {1L, len / 2 > 0 ? len / 2 : 1L, len - 1 > 0 ? len - 1 : 1L}) {
+          if (len < 2) break;
+          for (int order = 0; order < 2; order++) {
+            std::vector<Fault> plan = order == 0 ? std::vector<Fault>{Fault{(long)call, VW_SHORT, k}, Fault{(long)call + 1, VW_EINTR, 0}}
+                                                 : std::vector<Fault>{Fault{(long)call, VW_EINTR, 0}, Fault{(long)call + 1, VW_SHORT, k}};
+            std::string e = run_soft(base, kv, p, plan);
+            n++;
+            if (!e.empty()) {
+              Case fc = base;
+              fc.plan = plan;
+              rr.failf("%s\n#REPRO\n%s", e.c_str(), fc.ser().c_str());
+              return;
+            }
+          }
+        }
         for (int reps : {1, 2, 5}) {
           std::vector<Fault> plan;
           for (int j = 0; j < reps; j++) plan.push_back(Fault{(long)call + j, VW_EINTR, 0});
@@ -313,6 +329,16 @@ static int extra_modes(const WorkerOpts &o, Stats &stats) {
         f.kind = variant == 3 ? VW_ZERO : VW_ERROR;
         f.arg = variant == 0 ? EIO : variant == 1 ? ENOSPC : EBADF;
         hc.plan = {f};
+        if (!enum_step<Case>(o, stats, hc, run_case)) return 1;
+      }
+    // a short write immediately followed by a hard error on the retry of the remainder (the usual disk-full pattern),
+    // and an EINTR immediately followed by a hard error, at every call
+    for (long call = 0; call < ncalls; call++)
+      for (int first = 0; first < 2; first++) {
+        Case hc = base;
+        Fault f1{call, first == 0 ? VW_SHORT : VW_EINTR, 1};
+        Fault f2{call + 1, VW_ERROR, first == 0 ? (long)ENOSPC : (long)EIO};
+        hc.plan = {f1, f2};
         if (!enum_step<Case>(o, stats, hc, run_case)) return 1;
       }
   }
